@@ -82,7 +82,12 @@ def gen_case(rng, tier, idx, fill=False):
         # a lifespan on top of filling: the retained candles must still be the (contiguous) tail of the reference
         lifespan = tf_s * rng.randint(8, 20) + rng.choice([0, 1, tf_s // 2])
         entry = rng.choice(["manager", "indicator", "hexital_level"])  # (member timeframes + lifespan at construction: recorded C08 finding)
-    return {"rows": rows, "tf": tf, "entry": entry, "lifespan_s": lifespan,
+    long_vol = rng.random() < 0.06
+    if long_vol:
+        # volumes carrying many decimals (fractional lots): a bucket's volume is still exactly the running sum of its candles' volumes
+        for r in rows:
+            r[5] = r[5] * 0.001234567891234
+    return {"rows": rows, "tf": tf, "entry": entry, "lifespan_s": lifespan, "long_vol": long_vol,
             "schedule": sch, "extra_passes": rng.choice([0, 0, 0, 1, 2, 3]), "ts_mode": mode if not long_gap else "long_gap", "fill": fill, "tf_enum": rng.random() < 0.25, "aware": aware}
 
 
@@ -175,6 +180,8 @@ def run_case(case):
     s = tf_seconds(tf)
     drows = [(ts_of(r[0]), *r[1:]) for r in rows]
     stats = {"entries_seen": [entry], "ts_modes": [case["ts_mode"]], "tf_units": [tf[0].upper()]}
+    if case.get("long_vol"):
+        stats["long_decimal_volume_streams"] = 1
     if case.get("aware"):
         stats["tz_aware_streams"] = 1
     viol = []
@@ -197,7 +204,8 @@ def run_case(case):
             viol.append({"monitor": "structural-invariant", "sig": f"{prop}|{st[0]}|{entry}",
                          "detail": f"{where}: {st[0]} at bucket {st[1]}: {short(got[max(0, st[1] - 1):st[1] + 2], 400)}"})
             return False
-        if not case.get("lifespan_s") and sum(g[5] for g in got) != sum(r[5] for r in drows[:consumed]):
+        tot_g, tot_r = sum(g[5] for g in got), sum(r[5] for r in drows[:consumed])
+        if not case.get("lifespan_s") and (abs(tot_g - tot_r) > 1e-12 * max(1.0, abs(tot_r)) if case.get("long_vol") else tot_g != tot_r):
             viol.append({"monitor": "volume-conservation", "sig": f"{prop}|volume-not-conserved|{entry}",
                          "detail": f"{where}: sum(volume) buckets={sum(g[5] for g in got)} rows={sum(r[5] for r in drows[:consumed])}"})
             return False
